@@ -334,7 +334,7 @@ def run(ctx):
     ctx.log("exhaustive n<=%d: %d real executions" % (nmax, len(traces)))
     # sampled: next size up, then random larger lists with cancellation injected at random points
     cfgs = all_cfgs()
-    for k in range(ctx.pick(900, 30000)):
+    for k in range(ctx.pick(600, 30000)):
         c = cfgs[k % len(cfgs)]
         n = nmax + 1 if k % 3 == 0 else ctx.rng.randint(2, 12)
         cfg = dict(c, n=n, ck=[ctx.rng.choice([0, 0, 1, 2, 3]) for _ in range(n)])
